@@ -27,6 +27,8 @@ var assumptions = []string{
 	"AutoHead is documented for Get(): while it is on, GET is declared through Get / Combo.Get / Any only (whether Route(\"GET\") and Routes(\"GET\") should add HEAD is not stated)",
 	"route paths of one program are distinct, so every registration is valid",
 	"a declaration that is refused leaves what was there before untouched; of its own routes any part may stand (registered before the refusal was noticed) or none (taken back); later declarations are not affected by it (a Combo's common handlers do not stick to them, the group scope is as it was)",
+	"'Combo refuses the same method twice' is read literally: the Combo value refuses, also when the repeat is made while another group is open (clause combo-repeat-other-scope; an implementation that leaves the refusal to the router's duplicate detection would trip this clause and no other)",
+	"an argument list handed to Routes stays the caller's: spread into a second Routes call it declares the same handlers again (class routes-arguments-reused)",
 	"pieces that are each harmless but concatenate to a route the router must refuse (C08) are refused like the flat registration, and the enclosing scope is restored when a group is left through that panic",
 }
 
@@ -625,6 +627,9 @@ func checkCase(c Case) (out evid.Outcome) {
 		out.NonTrivial = true
 		out.Classes = append(out.Classes, "siblings-in-nested-group")
 	}
+	if strings.Contains(js(c), `"same_arguments_again":true`) {
+		out.Classes = append(out.Classes, "routes-arguments-reused")
+	}
 	return out
 }
 
@@ -983,8 +988,14 @@ func checkRepeat(c RepeatCase) evid.Outcome {
 	if c.Again < len(c.Methods)-1 {
 		out.Classes = append(out.Classes, "combo-repeat-not-the-last-declared")
 	}
+	if refused == nil && c.OtherScope {
+		return evid.Fail("combo-repeat-other-scope", "Combo accepted %s a second time (the repeat was made inside another group) after %v", c.Methods[c.Again], c.Methods)
+	}
 	if refused == nil {
 		return evid.Fail("combo-repeat", "Combo accepted %s a second time after %v", c.Methods[c.Again], c.Methods)
+	}
+	if c.OtherScope {
+		out.Classes = append(out.Classes, "combo-repeat-other-scope")
 	}
 	// what had been declared still answers, each method with its own handler
 	for _, m := range c.Methods {
